@@ -23,13 +23,20 @@ def kernel_specs(progs, stride=1, offset=0):
     return specs
 
 
-def nx_phase(run, specs, opts, env, label, batch=40):
-    units = [{"kernels": ch, "opts": opts, "tag": f"{label}{i}"} for i, ch in enumerate(chunked(specs, batch))]
+def nx_units(specs, opts, capacity, label, batch=40):
+    return [{"kernels": ch, "opts": opts, "tag": f"{label}{i}", "capacity": capacity, "label": label}
+            for i, ch in enumerate(chunked(specs, batch))]
+
+
+def nx_run(run, units):
+    """All native batches in one pool (the capacity hook is set per unit)."""
     units = rotate(units, run.seed)
-    print(f"[C06] {label}: {len(specs)} kernel requests in {len(units)} batches", flush=True)
-    results = run_pool("vx.nx", "work", units, env=env)
+    print(f"[C06] (a) native conformance: {sum(len(u['kernels']) for u in units)} kernel requests in {len(units)} "
+          "batches", flush=True)
+    results = run_pool("vx.nx", "work", units)
     tot = {"cases": 0, "validated": 0, "kernels": 0}
-    for status, res in results:
+    for unit, (status, res) in zip(units, results, strict=True):
+        label = unit["label"]
         if status != "ok":
             run.report({"signature": {"kind": "worker-exception"}, "what": f"harness worker failed: {res}", "case": {}})
             continue
@@ -56,17 +63,20 @@ def run(tier, seed):
     else:
         more = [p for p in kspace.programs("quick", "full") if p not in set(base)]
         stride = 5
-    specs = kernel_specs(base) + kernel_specs(more, stride=stride, offset=seed)
+    # native compilation does not scale beyond ~4 concurrent tool chains in this VM (page-fault bound), so the
+    # quick tier compiles every 2nd kernel of the base space (the other half under the next VERIF_SEED)
+    base_stride = 2 if tier == "quick" else 1
+    specs = kernel_specs(base, stride=base_stride, offset=seed) + kernel_specs(more, stride=stride, offset=seed)
     opts = {"cap": 16 if tier == "quick" else 32, "deviations": True, "with_ac": True}
-    totals = []
-    totals.append(nx_phase(run, specs, opts, {"TENSORA_VERIF_INITIAL_CAPACITY": "1"}, "cap1"))
+    units = nx_units(specs, opts, "1", "cap1")
     dspecs = kernel_specs(base, stride=8 if tier == "quick" else 1, offset=seed)
-    totals.append(nx_phase(run, dspecs, {**opts, "cap": 6}, {"TENSORA_VERIF_INITIAL_CAPACITY": ""}, "capdefault"))
+    units += nx_units(dspecs, {**opts, "cap": 6}, "", "capdefault", batch=20)
     # rounding-sensitive sub-sweep: inexact values expose re-association by a printer
     rprogs = P(3, 3, min_leaves=3, repeats=False, ops="+*", target_orders=(0, 1), max_order=1)
     rspecs = kernel_specs(rprogs, stride=3 if tier == "quick" else 1, offset=seed)
-    totals.append(nx_phase(run, rspecs, {"cap": 4, "deviations": False, "with_ac": False, "rounding": True},
-                           {"TENSORA_VERIF_INITIAL_CAPACITY": "1"}, "rounding"))
+    units += nx_units(rspecs, {"cap": 4, "deviations": False, "with_ac": False, "rounding": True}, "1", "rounding",
+                      batch=60)
+    totals = [nx_run(run, units)]
     # (b) printers: IR trees through the real ir_to_c / ir_to_llvm, gcc and MCJIT vs the abstract machine
     from ..txwork import printer_tree_count
 
@@ -102,8 +112,8 @@ def run(tier, seed):
     return run.finish(
         states=cases + tree_states, transitions=cases * 5 + tree_states, traces_validated=validated + tree_valid,
         evaluations=cases + tree_states, distinct_nontrivial=validated // 3 + tree_valid // 2,
-        rule="(a) every kernel of the L<=2,S<=3 program space x all formats, plus every "
-             f"{stride}th kernel of the wider space: evaluate/assemble/compute printed by the real ir_to_c and "
+        rule=f"(a) every {'2nd ' if base_stride == 2 else ''}kernel of the L<=2,S<=3 program space x all formats "
+             f"(offset rotated by VERIF_SEED), plus every {stride}th kernel of the wider space: evaluate/assemble/compute printed by the real ir_to_c and "
              "ir_to_llvm, compiled by gcc (ASan+UBSan), clang-14 (ASan) and MCJIT (compile_module), driven through "
              "the script evaluate; assemble; compute; compute(re-valued) on every joint input structure within the "
              "cap; each backend's return values and pos/crd/vals dumps must equal the abstract machine's, bit for "
